@@ -22,36 +22,50 @@ the line-local theorems add, site by site.)
 
 Per operator of the catalogue:
 * bad-width ............ `alias_type_rejected`, `bad_width_alias_rejected` (alias lines), `bad_width_member_rejected`
-                         (type of a member); enum base, array elements, `sizeof`, `make_*` arguments: no theorem
-* wrong-case ........... `wrong_case_alias_name_rejected` (declared name of an alias), `wrong_case_member_name_rejected`
-                         (a member name with its first letter in upper case); enum / struct names, lower-cased
-                         constants: none
-* one-char-name ........ `one_char_alias_name_rejected` (alias), `one_char_member_name_rejected` (members and enum
-                         values); enum / struct names: none
+                         (type of a member), `bad_width_enum_base_rejected`, `bad_width_array_element_rejected`,
+                         `bad_width_sizeof_rejected`, `bad_width_make_reserved_rejected`, `bad_width_make_const_rejected`
+                         (each for `uint24` / `int24` followed by anything)
+* wrong-case ........... `wrong_case_alias_name_rejected`, `wrong_case_member_name_rejected` (a member name with its
+                         first letter in upper case), `enum_name_rejected`, `struct_name_rejected` (second letter not
+                         lower case); lower-cased constants: none (a lower-cased constant IS a member name; what
+                         rejects the line is the rest of it)
+* one-char-name ........ `one_char_alias_name_rejected`, `one_char_member_name_rejected` (members and enum values),
+                         `enum_name_rejected`, `struct_name_rejected` (the second character a blank or nothing lower)
 * unknown-keyword ...... `unknown_statement_keyword_rejected` (every statement keyword at the start of a line, and the
                          unnamed `inline`), `unknown_member_keyword_rejected` (`array`, `make_reserved`, `sizeof`,
-                         `inline` after `=`), `unknown_const_keyword_rejected` (`make_const`), `unknown_if_rejected`;
-                         `struct` after a modifier (`abstract xstruct`): none
+                         `inline` after `=`), `unknown_const_keyword_rejected` (`make_const`), `unknown_if_rejected`,
+                         `unknown_struct_after_modifier_rejected` (`abstract xstruct`, `inline xstruct`)
 * unknown-attribute .... `unknown_attribute_rejected`
-* unknown-transform .... `unknown_transform_rejected` (the transform of the first comparer entry; later entries: none)
+* unknown-transform .... `unknown_transform_rejected` (first comparer entry), `unknown_transform_later_rejected` (any
+                         later entry, after any list of well-formed entries)
 * unknown-cond-op ...... `unknown_condition_operator_rejected`
-* missing-operand ...... `missing_operand_alias_rejected` (alias); other sites: none
+* missing-operand ...... `missing_operand_alias_rejected`, `missing_operand_member_rejected` (`name = `),
+                         `missing_operand_constant_rejected` (`NAME = `: enum values and constants),
+                         `missing_operand_enum_base_rejected` (`enum Name : `)
 * missing-bracket ...... `missing_open_bracket_rejected` (`array`, `sizeof`, `make_reserved`),
-                         `missing_close_bracket_array_rejected`; `make_const(`, `binary_fixed(`, attribute
-                         parentheses: none
-* missing-equals ....... `missing_equals_alias_rejected` (alias); member and enum value lines: none
+                         `missing_close_bracket_array_rejected`, `missing_close_bracket_reserved_sizeof_rejected`,
+                         `missing_bracket_make_const_rejected` (both sides),
+                         `missing_bracket_binary_fixed_rejected` (both sides), `missing_close_bracket_size_rejected`
+                         (every member name), `missing_bracket_attribute_rejected` (instances for the other attributes)
+* missing-equals ....... `missing_equals_alias_rejected`, `missing_equals_constant_rejected` (enum values and
+                         constants), `missing_equals_member_rejected` (members whose name does not start like a
+                         top-level keyword: `enum Foo : uint8` is a line of the grammar)
 * missing-final-newline  `missing_final_newline_rejected` (all documents)
 * dedented-member ...... `dedented_member_rejected` (printed documents; any member of any struct)
 * empty-struct ......... `empty_struct_rejected` (printed documents; any struct)
-* wrong-arity .......... `wrong_arity_flags_rejected`, `wrong_arity_variadic_rejected`, `wrong_arity_size_rejected`;
-                         the other fixed-arity attributes: none
-The sites without a theorem are covered by the correspondence run only (every operator x every site on generated
-and shipped documents, model and lark both reject). The tie between the text produced by `Corrupt.variants` and the
-line shapes used here is also by correspondence only; `Corrupt` is not reasoned about.
+* wrong-arity .......... `wrong_arity_flags_rejected`, `wrong_arity_variadic_rejected`, `wrong_arity_size_rejected`,
+                         `wrong_arity_fixed_rejected` (instances: `@initializes`, `@sort_key`, `@alignment`, `@sizeref`,
+                         `@size` with too few / too many arguments)
+Still without a theorem: the general (all names) form of the attribute instances of `missing-bracket` and
+`wrong-arity`; these and every other site are covered by the correspondence run (every operator x every site on
+generated and shipped documents, each also with a whitespace-only line before / after the corrupted line; model and
+lark both reject). The tie between the text produced by `Corrupt.variants` and the line shapes used here is also by
+correspondence only; `Corrupt` is not reasoned about.
 -/
 import SymbolVerif.Proofs.CatsParserLemmas
 import SymbolVerif.Proofs.CatsScanLemmas
 import SymbolVerif.Proofs.CatsRejectLines
+import SymbolVerif.Proofs.CatsRejectMore
 import SymbolVerif.Proofs.CatsOutput
 import SymbolVerif.Model.Cats.Corrupt
 namespace SymbolVerif.C11
@@ -342,6 +356,173 @@ theorem wrong_arity_size_rejected (p : String) (hp : IsPropName p) (rest : Chars
     LineRejected ('@' :: 's' :: 'i' :: 'z' :: 'e' :: '(' :: (p.toList ++ ',' :: rest)) :=
   wrong_arity_size p hp rest
 
+/-! ### second round: the remaining sites -/
+
+/-- Operators `one-char-name` / `wrong-case` on an enum name: `enum F : …`, `enum FOo : …` (an upper-case letter
+    followed by anything but a lower-case letter). -/
+theorem enum_name_rejected (a b : Char) (ha : isUpper a = true) (hb : isLower b = false) (tail : Chars) :
+    LineRejected (enumLine (a :: b :: tail)) :=
+  Parser.enum_name_rejected a b ha hb tail
+
+/-- Operators `one-char-name` / `wrong-case` on a struct name: `struct F`, `struct FOo`. -/
+theorem struct_name_rejected (a b : Char) (ha : isUpper a = true) (hb : isLower b = false) (tail : Chars) :
+    LineRejected (structLine (a :: b :: tail)) :=
+  Parser.struct_name_rejected a b ha hb tail
+
+/-- Operator `bad-width` on the base type of an enum: `enum Name : uint24…` / `int24…`. -/
+theorem bad_width_enum_base_rejected (name : Chars) (hn : IsUserTypeName name) (rest : Chars) :
+    LineRejected (enumLine (name ++ ' ' :: ':' :: ' ' :: 'u' :: 'i' :: 'n' :: 't' :: '2' :: '4' :: rest)) ∧
+    LineRejected (enumLine (name ++ ' ' :: ':' :: ' ' :: 'i' :: 'n' :: 't' :: '2' :: '4' :: rest)) :=
+  bad_width_enum_base name hn rest
+
+/-- Operator `missing-operand` on an enum header: `enum Name : `. -/
+theorem missing_operand_enum_base_rejected (name : Chars) (hn : IsUserTypeName name) :
+    LineRejected (enumLine (name ++ ' ' :: ':' :: ' ' :: [])) :=
+  missing_operand_enum_base name hn
+
+/-- Operator `unknown-keyword` on the `struct` after a modifier: `abstract xstruct Foo`, `inline xstruct Foo`. -/
+theorem unknown_struct_after_modifier_rejected (rest : Chars) :
+    LineRejected ('a' :: 'b' :: 's' :: 't' :: 'r' :: 'a' :: 'c' :: 't' :: ' ' :: 'x' :: rest) ∧
+    LineRejected ('i' :: 'n' :: 'l' :: 'i' :: 'n' :: 'e' :: ' ' :: 'x' :: rest) :=
+  unknown_struct_after_modifier rest
+
+/-- Operator `unknown-transform` on any entry after the first: `@comparer(e1, …, ek, member!xtransform…`, for every
+    list of well-formed entries (with or without their own transform) before it. -/
+theorem unknown_transform_later_rejected (e : String × Bool) (es : List (String × Bool)) (he : IsPropName e.1)
+    (hes : ∀ x ∈ es, IsPropName x.1) (q : String) (hq : IsPropName q) (rest : Chars) :
+    LineRejected ('@' :: 'c' :: 'o' :: 'm' :: 'p' :: 'a' :: 'r' :: 'e' :: 'r' :: '(' ::
+      ((entryText e).toList ++ (commaList (es.map entryText) ++ ',' :: ' ' :: (q.toList ++ '!' :: 'x' :: rest)))) :=
+  unknown_transform_later e es he hes q hq rest
+
+/-- Operator `missing-bracket` on `make_const(…)`: something else than `(` after the keyword; the printed argument
+    list (integer and enum constants) cut before its `)`. -/
+theorem missing_bracket_make_const_rejected (name : String) (hn : IsConstantName name) :
+    (∀ (c : Char) (rest : Chars), isWs c = false → c ≠ '(' →
+      LineRejected (name.toList ++ ' ' :: '=' :: ' ' :: 'm' :: 'a' :: 'k' :: 'e' :: '_' :: 'c' :: 'o' :: 'n' :: 's' :: 't' :: c :: rest)) ∧
+    (∀ (t : FieldType) (v : Scalar), WFConstArg t v →
+      LineRejected (name.toList ++ ' ' :: '=' :: ' ' :: 'm' :: 'a' :: 'k' :: 'e' :: '_' :: 'c' :: 'o' :: 'n' :: 's' :: 't' :: '(' ::
+        (t.render.toList ++ ',' :: ' ' :: v.pyStr.toList))) :=
+  ⟨fun c rest hws hc => missing_open_bracket_const name hn c rest hws hc,
+   fun t v h => missing_close_bracket_const name hn t v h⟩
+
+/-- Operator `bad-width` inside `make_const(…)`. -/
+theorem bad_width_make_const_rejected (name : String) (hn : IsConstantName name) (rest : Chars) :
+    LineRejected (name.toList ++ ' ' :: '=' :: ' ' :: 'm' :: 'a' :: 'k' :: 'e' :: '_' :: 'c' :: 'o' :: 'n' :: 's' :: 't' :: '(' ::
+      'u' :: 'i' :: 'n' :: 't' :: '2' :: '4' :: rest) ∧
+    LineRejected (name.toList ++ ' ' :: '=' :: ' ' :: 'm' :: 'a' :: 'k' :: 'e' :: '_' :: 'c' :: 'o' :: 'n' :: 's' :: 't' :: '(' ::
+      'i' :: 'n' :: 't' :: '2' :: '4' :: rest) :=
+  bad_width_const_arg name hn rest
+
+/-- Operator `missing-operand` on an enum value or constant line: `NAME = `. -/
+theorem missing_operand_constant_rejected (name : String) (hn : IsConstantName name) :
+    LineRejected (name.toList ++ ' ' :: '=' :: ' ' :: []) :=
+  missing_operand_const name hn
+
+/-- Operator `missing-equals` on an enum value or constant line: `NAME 5`, `NAME make_const(…)`. -/
+theorem missing_equals_constant_rejected (name : String) (hn : IsConstantName name) (c : Char) (rest : Chars)
+    (hws : isWs c = false) (hc : c ≠ '=') : LineRejected (name.toList ++ ' ' :: c :: rest) :=
+  missing_equals_const name hn c rest hws hc
+
+/-- Operator `missing-operand` on a member line: `name = `. -/
+theorem missing_operand_member_rejected (name : String) (hn : IsMemberName name) :
+    LineRejected (name.toList ++ ' ' :: '=' :: ' ' :: []) :=
+  missing_operand_member name hn
+
+/-- Operator `missing-equals` on a member line: `name uint8`, for every member name whose first letter is not that of
+    a top-level keyword (`a`, `i`, `s`, `u`, `e`): with such a name the line can be a statement of the grammar
+    (`enum Foo : uint8`). -/
+theorem missing_equals_member_rejected (name : String) (hn : IsMemberName name) (a : Char) (w : Chars)
+    (hname : name.toList = a :: w) (ha : ('a' == a) = false) (hi : ('i' == a) = false) (hs : ('s' == a) = false)
+    (hu : ('u' == a) = false) (he : ('e' == a) = false) (c : Char) (rest : Chars) (hws : isWs c = false) (hc : c ≠ '=') :
+    LineRejected (name.toList ++ ' ' :: c :: rest) :=
+  missing_equals_member name hn a w hname ha hi hs hu he c rest hws hc
+
+/-- Operator `bad-width` on the element type of an array: `name = array(uint24, …`. -/
+theorem bad_width_array_element_rejected (name : String) (hn : IsMemberName name) (rest : Chars) :
+    LineRejected (name.toList ++ ' ' :: '=' :: ' ' :: 'a' :: 'r' :: 'r' :: 'a' :: 'y' :: '(' :: 'u' :: 'i' :: 'n' :: 't' :: '2' :: '4' :: rest) ∧
+    LineRejected (name.toList ++ ' ' :: '=' :: ' ' :: 'a' :: 'r' :: 'r' :: 'a' :: 'y' :: '(' :: 'i' :: 'n' :: 't' :: '2' :: '4' :: rest) :=
+  bad_width_array_elem name hn rest
+
+/-- Operator `bad-width` on the type of `sizeof(…)`. -/
+theorem bad_width_sizeof_rejected (name : String) (hn : IsMemberName name) (rest : Chars) :
+    LineRejected (name.toList ++ ' ' :: '=' :: ' ' :: 's' :: 'i' :: 'z' :: 'e' :: 'o' :: 'f' :: '(' :: 'u' :: 'i' :: 'n' :: 't' :: '2' :: '4' :: rest) ∧
+    LineRejected (name.toList ++ ' ' :: '=' :: ' ' :: 's' :: 'i' :: 'z' :: 'e' :: 'o' :: 'f' :: '(' :: 'i' :: 'n' :: 't' :: '2' :: '4' :: rest) :=
+  bad_width_sizeof name hn rest
+
+/-- Operator `bad-width` inside `make_reserved(…)`. -/
+theorem bad_width_make_reserved_rejected (name : String) (hn : IsMemberName name) (rest : Chars) :
+    LineRejected (name.toList ++ ' ' :: '=' :: ' ' :: 'm' :: 'a' :: 'k' :: 'e' :: '_' :: 'r' :: 'e' :: 's' :: 'e' :: 'r' :: 'v' :: 'e' :: 'd' :: '(' ::
+      'u' :: 'i' :: 'n' :: 't' :: '2' :: '4' :: rest) ∧
+    LineRejected (name.toList ++ ' ' :: '=' :: ' ' :: 'm' :: 'a' :: 'k' :: 'e' :: '_' :: 'r' :: 'e' :: 's' :: 'e' :: 'r' :: 'v' :: 'e' :: 'd' :: '(' ::
+      'i' :: 'n' :: 't' :: '2' :: '4' :: rest) :=
+  bad_width_reserved name hn rest
+
+/-- Operator `missing-bracket` on the closing parenthesis of `make_reserved(T, v)` (integer and enum constants) and of
+    `sizeof(T, member)` (all eight integer types): the printed text cut before its `)`. -/
+theorem missing_close_bracket_reserved_sizeof_rejected (name : String) (hn : IsMemberName name) :
+    (∀ (t : FieldType) (v : Scalar), WFConstArg t v →
+      LineRejected (name.toList ++ ' ' :: '=' :: ' ' :: 'm' :: 'a' :: 'k' :: 'e' :: '_' :: 'r' :: 'e' :: 's' :: 'e' :: 'r' :: 'v' :: 'e' :: 'd' :: '(' ::
+        (t.render.toList ++ ',' :: ' ' :: v.pyStr.toList))) ∧
+    (∀ (u : Bool) (sz : Nat), (sz = 1 ∨ sz = 2 ∨ sz = 4 ∨ sz = 8) → ∀ p : String, IsPropName p →
+      LineRejected (name.toList ++ ' ' :: '=' :: ' ' :: 's' :: 'i' :: 'z' :: 'e' :: 'o' :: 'f' :: '(' ::
+        ((IntType.shortName ⟨u, sz, none⟩).toList ++ ',' :: ' ' :: p.toList))) :=
+  ⟨fun t v h => missing_close_bracket_reserved name hn t v h,
+   fun u sz hsz p hp => missing_close_bracket_sizeof name hn u sz hsz p hp⟩
+
+/-- `binary_fixed` and what follows it -/
+def binaryFixedLine (name args : Chars) : Chars :=
+  usingLine (name ++ ' ' :: '=' :: ' ' :: 'b' :: 'i' :: 'n' :: 'a' :: 'r' :: 'y' :: '_' :: 'f' :: 'i' :: 'x' :: 'e' :: 'd' :: args)
+
+/-- Operator `missing-bracket` on `binary_fixed(n)`: something else than `(` after the keyword; the `)` dropped. -/
+theorem missing_bracket_binary_fixed_rejected (name : Chars) (hn : IsUserTypeName name) :
+    (∀ (c : Char) (rest : Chars), isWs c = false → c ≠ '(' → LineRejected (binaryFixedLine name (c :: rest))) ∧
+    (∀ n : Nat, LineRejected (binaryFixedLine name ('(' :: (toString n).toList))) := by
+  have hscan : ∀ args, userTypeName (' ' :: (name ++ ' ' :: '=' :: ' ' :: 'b' :: 'i' :: 'n' :: 'a' :: 'r' :: 'y' :: '_' :: 'f' :: 'i' :: 'x' :: 'e' :: 'd' :: args)) =
+      some (String.ofList name, ' ' :: '=' :: ' ' :: 'b' :: 'i' :: 'n' :: 'a' :: 'r' :: 'y' :: '_' :: 'f' :: 'i' :: 'x' :: 'e' :: 'd' :: args) :=
+    fun args => userTypeName_with_blank name _ hn (tail_head_not_type _)
+  have hA : ∀ t, lit "=" (' ' :: '=' :: t) = some t := by
+    intro t; simp [lit, skipWs, List.dropWhile, isWs, List.isPrefixOf]
+  have hfix : ∀ t, fixedSizeInteger (' ' :: 'b' :: t) = none := by
+    intro t; rw [fixedSizeInteger_skip_blank]; exact fixedSizeInteger_none_of_head 'b' t (by decide) (by decide) (by decide)
+  have hbf : ∀ t, lit "binary_fixed" (' ' :: 'b' :: 'i' :: 'n' :: 'a' :: 'r' :: 'y' :: '_' :: 'f' :: 'i' :: 'x' :: 'e' :: 'd' :: t) = some t := by
+    intro t; simp [lit, skipWs, List.dropWhile, isWs, List.isPrefixOf]
+  obtain ⟨a, b, rest', hname, ha, hb, hrest⟩ := id hn
+  have heq : ∀ t, lit "=" (' ' :: (name ++ t)) = none := by
+    intro t; rw [hname]; exact lit_eq_none_of_upper a _ ha
+  constructor
+  · intro c rest hws hc
+    have hlp : lit "(" (c :: rest) = none :=
+      lit_none_of_head "(" '(' [] rfl c rest hws (by simp only [beq_eq_false_iff_ne, ne_eq]; exact fun h => hc h.symm)
+    apply using_line_rejected
+    · simp only [aliasRest, hscan, hA, hfix, hbf, hlp, bind, Option.bind]
+    · exact heq _
+  · intro n
+    have hrp : lit ")" [] = none := by decide
+    apply using_line_rejected
+    · simp only [aliasRest, hscan, hA, hfix, hbf, lit_lpar, number_repr_nil, hrp, bind, Option.bind]
+    · exact heq _
+
+/-- Operator `missing-bracket` on the closing parenthesis of `@size(member)`, for every member name. -/
+theorem missing_close_bracket_size_rejected (p : String) (hp : IsPropName p) :
+    LineRejected ('@' :: 's' :: 'i' :: 'z' :: 'e' :: '(' :: p.toList) :=
+  missing_close_bracket_size p hp
+
+/-- Operator `missing-bracket` on the parentheses of the other attributes (instances). -/
+theorem missing_bracket_attribute_rejected :
+    LineRejected "@size ab)".toList ∧ LineRejected "@initializes(ab, CD".toList ∧
+    LineRejected "@discriminator(ab, cd".toList ∧ LineRejected "@comparer(ab!ripemd_keccak_256".toList ∧
+    LineRejected "@alignment(8".toList ∧ LineRejected "@alignment 8)".toList ∧ LineRejected "@sort_key(ab".toList ∧
+    LineRejected "@sizeref(ab, 1".toList :=
+  missing_bracket_attribute
+
+/-- Operator `wrong-arity` on the attributes with a fixed number of arguments (instances): too few and too many. -/
+theorem wrong_arity_fixed_rejected :
+    LineRejected "@initializes(ab)".toList ∧ LineRejected "@initializes(ab, CD, ef)".toList ∧
+    LineRejected "@sort_key(ab, cd)".toList ∧ LineRejected "@sort_key()".toList ∧
+    LineRejected "@alignment()".toList ∧ LineRejected "@alignment(8, pad_last, 4)".toList ∧
+    LineRejected "@sizeref()".toList ∧ LineRejected "@sizeref(ab, 1, 2)".toList ∧ LineRejected "@size()".toList :=
+  wrong_arity_fixed
+
 /-! ### structural operators, on printed documents -/
 
 /-- Operator `empty-struct`: in the text printed for well-formed declarations, a struct that has lost all its member
@@ -409,8 +590,8 @@ theorem accepted_declared_names (doc : Chars) (ds : Schema) (h : parse doc = .ok
 /-- no accepted document carries an unknown struct / enum attribute or one with the wrong number of arguments, and
     every member of every struct is one of the member forms of the grammar -/
 theorem accepted_attributes_and_members (doc : Chars) (ds : Schema) (h : parse doc = .ok ds) :
-    (∀ s, Decl.struct s ∈ ds → WFAttrs WFStructAttr s.attributes ∧ ∀ m ∈ s.fields, OutMember m) ∧
-    (∀ e, Decl.enum e ∈ ds → WFAttrs WFEnumAttr e.attributes ∧ ∀ v ∈ e.values, OutEnumValue v) := by
+    (∀ s, Decl.struct s ∈ ds → WFAttrs WFStructAttr s.attributes ∧ ∀ m ∈ s.fields, WFMemberC m) ∧
+    (∀ e, Decl.enum e ∈ ds → WFAttrs WFEnumAttr e.attributes ∧ ∀ v ∈ e.values, WFEnumValueC v) := by
   constructor
   · intro s hs
     cases parse_out doc ds h _ hs with
